@@ -44,6 +44,31 @@ Proof.
   rewrite nth_error_nth' with (d := 0) by (rewrite seq_length; exact Ha). now rewrite seq_nth.
 Qed.
 
+Lemma covers_spec K labels : covers K labels = true <-> (forall k, k < K -> In k labels).
+Proof.
+  unfold covers. rewrite forallb_forall. split.
+  - intros H k Hk. assert (Hin : In k (seq 0 K)) by (apply in_seq; lia).
+    apply H in Hin. apply existsb_exists in Hin. destruct Hin as (x & Hx & E). apply Nat.eqb_eq in E. now subst.
+  - intros H k Hk. apply in_seq in Hk. apply existsb_exists. exists k. split; [apply H; lia|apply Nat.eqb_refl].
+Qed.
+
+(** C14 (2b): on an iteration that reuses the clustering, the installed model and the labels it predicted for the training
+    points are covering as soon as a freshly fitted model is (the reused one is tested by the code) *)
+Theorem reuse_covers K_old pred_old K_new pred_new :
+  covers K_new pred_new = true ->
+  covers (fst (reuse_labels true K_old pred_old K_new pred_new)) (snd (reuse_labels true K_old pred_old K_new pred_new)) = true.
+Proof.
+  intro Hn. unfold reuse_labels. cbn [negb orb]. destruct (covers K_old pred_old) eqn:E; cbn [fst snd]; assumption.
+Qed.
+
+Theorem reuse_label_is_mode K_old pred_old K_new pred_new a :
+  covers K_new pred_new = true ->
+  let r := reuse_labels true K_old pred_old K_new pred_new in
+  a < fst r -> kernel_mode (fst r) (snd r) a = Some a.
+Proof.
+  intros Hn r Ha. apply label_is_mode; [|exact Ha]. apply covers_spec. apply reuse_covers. exact Hn.
+Qed.
+
 (** number of modes never exceeds K and equals K exactly under coverage *)
 Theorem modes_count K labels : length (occurring K labels) <= K.
 Proof.
